@@ -29,8 +29,10 @@ RULE = ('one run = one seeded FileStorage history (commits, aborts at every '
         'repair, the recovery\'s own operations are cut again (a second '
         'crash while reopening) and judged by the same oracle; at every '
         'point where a commit returned, additionally the image in which '
-        'all data-file writes not yet followed by an fsync are lost')
-BUDGET = {'quick': {'runs': 4000, 'wall': 300, 'chunk': 10},
+        'all data-file writes not yet followed by an fsync are lost; for '
+        'the deep subset also the image whose index file (renamed into '
+        'place without an fsync of its contents) is empty or cut short')
+BUDGET = {'quick': {'runs': 3000, 'wall': 300, 'chunk': 10},
           'thorough': {'runs': 30000, 'wall': 3000, 'chunk': 10}}
 ASSUMPTIONS = [
     'crash model of the property: a prefix of the issued low-level '
@@ -148,12 +150,39 @@ class Recovery:
             # operations are logged and cut below
             snap = img.snapshot()
             del img.log[:]
+        idx = PATH + '.index'
+        ib = None
+        if deep and not nested and idx in img.names:
+            ib = bytes(img.names[idx].data)
         try:
             self.check1(img, k, torn, deep, where)
         finally:
             if snap is not None:
                 rlog = [op for op in img.log]
                 self.crash_in_recovery(snap, rlog, k, torn, where)
+                if ib:
+                    self.torn_index(snap, ib, k, torn, where)
+
+    def torn_index(self, snap, ib, k, torn, where):
+        """Power loss: the index file is renamed into place without an
+        fsync of its contents, so after a machine stop it may be empty or
+        cut short beside the (synced) data file."""
+        r = random.Random(ctx.subseed(self.case['seed'], 'tornidx', k))
+        if r.random() > 0.3:
+            return
+        for n in sorted({0, r.randrange(len(ib)), len(ib) - 1}):
+            s2 = {'files': dict(snap['files']),
+                  'inodes': dict(snap['inodes']),
+                  'dirs': set(snap['dirs']),
+                  'next_ino': snap['next_ino'] + 10}
+            ino = snap['next_ino'] + 1
+            s2['files'][PATH + '.index'] = ino
+            s2['inodes'][ino] = ib[:n]
+            self.bump('torn_index_images')
+            self.check(simfs.SimFS.from_snapshot(
+                s2, None, self.case['bufsize']), k, torn, False,
+                '%s, index file cut to %d of %d bytes (contents never '
+                'synced)' % (where, n, len(ib)), nested=True)
 
     def crash_in_recovery(self, snap, rlog, k, torn, where):
         """The machine stops again while the crash image is being
